@@ -599,6 +599,56 @@ class NoTimer:
         pass
 
 
+class FireTimer:
+    """threading.Timer stand-in for geonet.router.Timer that the harness fires: armed timers are kept in `FireTimer.armed`
+    (callback name, owner = the Router the bound callback belongs to); `fire()` runs the callback on a THREAD OF ITS OWN,
+    as threading.Timer does - never the receive thread, so nothing the receive path keeps per thread is there at expiry"""
+    armed = []
+
+    def __init__(self, interval, function, args=None, kwargs=None):
+        self.daemon = True
+        self.function, self.args, self.kwargs = function, list(args or []), dict(kwargs or {})
+        self.owner = getattr(function, "__self__", None)
+        self.name = getattr(function, "__name__", "")
+        self.active = False
+
+    def start(self):
+        self.active = True
+        FireTimer.armed.append(self)
+        del FireTimer.armed[:-64]
+
+    def cancel(self):
+        self.active = False
+        if self in FireTimer.armed:
+            FireTimer.armed.remove(self)
+
+    def fire(self):
+        """returns the exception the callback raised on its thread (None: returned normally)"""
+        import threading
+        self.cancel()
+        box = []
+
+        def body():
+            try:
+                self.function(*self.args, **self.kwargs)
+            except BaseException as e:  # noqa: BLE001 - an exception kills the timer thread: an outcome to judge
+                box.append(e)
+        th = threading.Thread(target=body, daemon=True)
+        th.start()
+        th.join(20)
+        if th.is_alive():
+            return TimeoutError("timer callback did not return within 20 s")
+        return box[0] if box else None
+
+    @classmethod
+    def take(cls, owner, name="_cbf_timeout"):
+        """armed timers of one Router (callback `name`), removed from the armed list"""
+        mine = [t for t in cls.armed if t.owner is owner and t.name == name]
+        for t in mine:
+            cls.armed.remove(t)
+        return mine
+
+
 class RouterStation(RealStation):
     """a RealStation behind a real geonet Router (capturing link layer, indication recorder, gate probe)"""
 
@@ -645,7 +695,7 @@ class RouterStation(RealStation):
             gn_addr=self.router.mib.itsGnLocalGnAddr, tst=TST.set_in_normal_timestamp_milliseconds(clock_ms),
             latitude=self.lat, longitude=self.lon, pai=True)
 
-    def send(self, kind, payload: bytes, clock_ms, its_aid=None, area=None, transport=None):
+    def send(self, kind, payload: bytes, clock_ms, its_aid=None, area=None, transport=None, max_hop_limit=None):
         """originate one packet through the real Router; returns the emitted frame(s).
         `area` = (latitude, longitude, a, b) of a circular destination area: the packet goes out as GeoBroadcast (or
         GeoAnycast: `transport="gac"`) towards that area, which need not contain the sender (default for DENMs: 500 m
@@ -672,7 +722,8 @@ class RouterStation(RealStation):
                 ptt = PacketTransportType(header_type=HeaderType.GEOBROADCAST, header_subtype=GeoBroadcastHST.GEOBROADCAST_CIRCLE)
             req = GNDataRequest(
                 upper_protocol_entity=CommonNH.BTP_B, data=payload, length=len(payload), packet_transport_type=ptt,
-                area=Area(latitude=lat, longitude=lon, a=a, b=b, angle=0), security_profile=prof, its_aid=aid)
+                area=Area(latitude=lat, longitude=lon, a=a, b=b, angle=0), security_profile=prof, its_aid=aid,
+                **({"max_hop_limit": max_hop_limit} if max_hop_limit is not None else {}))
         self.router.gn_data_request(req)
         return self.ll.take()
 
